@@ -339,9 +339,10 @@ class PartPrograms:
     def run_part(self, part, inputs: dict) -> dict:
         names = sorted(part.output_names)
         exprs = [self.partition.name_to_output[nm] for nm in names]
-        ph = self._ph.get(part.pid)
+        ph = self.cache.get(("placeholders", self.rank, part.pid))
         if ph is None:
-            ph = self._ph[part.pid] = _placeholders(exprs)
+            ph = self.cache[("placeholders", self.rank, part.pid)] = \
+                _placeholders(exprs)
         for nm, p in ph.items():
             if nm not in inputs:
                 raise PartInputMissing(
